@@ -1,9 +1,26 @@
 from pyvc.verify import Unit
 from contracts import utils as U
+from contracts import dates as D
+from contracts import udf_time as UT
+from contracts import rr_tf as TF
 
 
 def units(tier):
-    return [Unit(U.GmtOffset), Unit(U.CeilingDiv), Unit(U.CeilingDivZero), Unit(U.Swab32), Unit(U.Swab16)]
+    us = [Unit(U.GmtOffset), Unit(D.DRDateNew), Unit(D.DRDateNewTwice), Unit(D.DRDateRecord), Unit(D.DRDateRecordUninit),
+          Unit(D.DRDateRoundTrip), Unit(D.DRDateNewRecord), Unit(D.VDDateNew), Unit(D.VDDateNewZero), Unit(D.VDDateNewRecord),
+          Unit(D.VDDateRoundTrip)]
+    for n in (7, 8, 17):
+        us.append(Unit(D.DRDateParse, {'n': n}))
+    for n in (0, 16, 18):
+        us.append(Unit(D.VDDateParseLen, {'n': n}))
+    us += [Unit(UT.UDFTimestampNew), Unit(UT.UDFTimestampRecord), Unit(UT.UDFTimestampRoundTrip), Unit(UT.UDFTimestampNewRecordParse)]
+    flagsets = [0, 1, 0x0e, 0x7f, 0x80, 0x8e, 0xff, 0x40] if tier == 'quick' else list(range(256))
+    for f in flagsets:
+        us.append(Unit(TF.TFLength, {'flags': f}))
+        us.append(Unit(TF.TFNewRecord, {'flags': f}))
+        if not f & 0x80:
+            us.append(Unit(TF.TFRoundTrip, {'flags': f}))
+    return us
 
 
 META = {}
